@@ -119,6 +119,18 @@ def interpret(body, out_names):
     return outs
 
 
+def must_after(f, first, second):
+    """True if `second` can execute after `first` in the CFG of f (used to exclude a loop that would re-order the calls)"""
+    cfg = f.cfg
+    b1, b2 = cfg.block_of(first), cfg.block_of(second)
+    if b1 is None or b2 is None:
+        return False
+    if b1[0] == b2[0]:
+        return b2[1] > b1[1]
+    import networkx as nx
+    return b2[0] in nx.descendants(cfg.G, b1[0])
+
+
 def run(chk):
     db = DB("serial")
     db.load_all()
@@ -322,6 +334,36 @@ def run(chk):
                             v = None
                     want = {-1.0, 0.0, 1.0}
                     chk.ob("C10-D3.domain", "family " + key, "canonical bound `%s`" % txt(c), v is not None and float(v) in want, dom.loc(c))
+
+    # ------------------------------------------------------------------ D5 composition order
+    chk.rule("C10-D5.order", "the points handed out are linear(conformal(canonical)); every route back to canonical coordinates (evaluate, weights, differentiate) applies the inverses in the "
+                             "opposite order, linear first and conformal second")
+
+    def kinds(f):
+        seq = []
+        for c in sorted((c for c in f.calls(into_lambda=False)), key=lambda c: (c.get("l", 0), c.get("id", 0))):
+            nm = short(callee(c) or "")
+            if nm in ("mapConformalCanonicalToTransformed", "mapConformalTransformedToCanonical"):
+                seq.append(("conformal", c))
+            elif nm in ("mapCanonicalToTransformed", "mapTransformedToCanonical"):
+                seq.append(("linear", c))
+        return seq
+    fwd_fns = [f for f in db.fns(TSG + "::formTransformedPoints")]
+    inv_fns = [f for f in db.fns(TSG + "::formCanonicalPoints")]
+    nord = 0
+    fk = [k for k, _ in kinds(fwd_fns[0])] if fwd_fns else []
+    for f in inv_fns:
+        chk.saw(f)
+        ik = [k for k, _ in kinds(f)]
+        nord += 1
+        chk.ob("C10-D5.order", f.key + f.sig, "inverse maps applied in the reverse order of the forward maps", len(fk) == 2 and ik == list(reversed(fk)), f.where,
+               "forward: %s ; inverse: %s" % (" then ".join(fk), " then ".join(ik)), "inverse of (linear o conformal) is (conformal^-1 o linear^-1)")
+        # straight-line: the second inverse is reached on every path on which the first ran only through its own guard
+        calls = kinds(f)
+        if len(calls) == 2:
+            a, b = calls[0][1], calls[1][1]
+            chk.ob("C10-D5.order", f.key + f.sig, "the first inverse precedes the second on the CFG", a.get("l", 0) <= b.get("l", 0) and not must_after(f, b, a), f.loc(a))
+    chk.floor("C10-D5.order", nord, 2, "instantiations of formCanonicalPoints")
 
     return ("Static rule discharge: the rule partitions of all dispatchers are compared enumerator by enumerator; the straight-line loop bodies of each family are converted to closed forms in "
             "(x, a, b, alpha, beta) and the identities forward∘inverse = id, Jacobian = d(inverse)/dx, quadrature scale = (d forward/dx)^(1+w), support factor = d forward/dx and the images of "
